@@ -69,7 +69,7 @@ PROPS['C17'] = {
         {'name': 'asan', 'flavour': 'asan', 'driver': 'drv_c17'},
         {'name': 'asan-dbg', 'flavour': 'asan-dbg', 'driver': 'drv_c17', 'shards': 4},
     ],
-    'require': {'bound.languages': 10, 'witness.encodes': 1000, 'witness.encodes_with_failing_allocator': 200},
+    'require': {'bound.languages': 10, 'witness.encodes': 1000, 'witness.encodes_with_failing_allocator': 200, 'lengths.encoded.ko': 60, 'lengths.encoded.jp': 50, 'lengths.encoded.en': 60, 'lengths': 400},
 }
 
 PROPS['C03'] = {
@@ -267,7 +267,7 @@ PROPS['C15'] = {
     'level': 'fault_enumeration',
     'exhaustive_possible': True,
     'runs': [{'name': 'asan-wrap', 'flavour': 'asan-wrap', 'driver': 'drv_c15', 'env': {'ASAN_OPTIONS': _LSAN}}],
-    'require': {'matrix.cases_ok': 500, 'matrix.cases_with_stale_out_pointer_and_address_reuse': 500, 'faults.injected': 500, 'masks.enumerated': 2000, 'libc.seed_freed_once': 500, 'free_null.silent': 500,
+    'require': {'matrix.cases_ok': 500, 'matrix.cases_with_stale_out_pointer_and_address_reuse': 500, 'matrix.cases_with_8_byte_aligned_blocks': 500, 'faults.injected': 500, 'masks.enumerated': 2000, 'libc.seed_freed_once': 500, 'free_null.silent': 500,
                 'matrix.cell.decode.UNSUPPORTED.fault-1(hit)': 10, 'matrix.cell.decode_explicit.UNSUPPORTED.fault-1(hit)': 10, 'matrix.cell.load.UNSUPPORTED.fault-1(hit)': 10,
                 'matrix.cell.decode.CHECKSUM.fault-1(not reached)': 10, 'matrix.cell.decode.MULT_LANG.fault-1(not reached)': 5, 'matrix.cell.load.FORMAT.fault-1(hit)': 10},
 }
